@@ -369,20 +369,12 @@ func (fx *FnExec) callHavoc(in ssa.Instruction, c *ssa.CallCommon, args []Val, r
 				fx.assume(fmt.Sprintf("(= (i.tag %s) %d)", r.S, fx.W.typeTag(pi.elem)))
 				switch pi.elem.Underlying().(type) {
 				case *types.Pointer, *types.Map:
-					fx.assume("(> (i.pay " + r.S + ") " + fx.allocBase() + ")")
-					for _, k := range fx.fresh {
-						fx.assume("(distinct (i.pay " + r.S + ") " + k + ")")
-					}
-					fx.fresh = append(fx.fresh, "(i.pay "+r.S+")")
+					fx.adoptFresh("(i.pay " + r.S + ")")
 				case *types.Slice:
 					// payload is boxed; freshness of the backing array
 					u := fx.unbox(pi.elem, "(i.pay "+r.S+")")
 					fx.assume(fx.typeInvariant(pi.elem, u))
-					fx.assume("(> (s.arr " + u + ") " + fx.allocBase() + ")")
-					for _, k := range fx.fresh {
-						fx.assume("(distinct (s.arr " + u + ") " + k + ")")
-					}
-					fx.fresh = append(fx.fresh, "(s.arr "+u+")")
+					fx.adoptFresh("(s.arr " + u + ")")
 				}
 				fx.usedAssumption("sync.Pool.Get returns an object of the pool's element type owned exclusively by the caller (arbitrary field values)")
 			}
@@ -441,11 +433,7 @@ func (fx *FnExec) callWithContract(in ssa.Instruction, c *ssa.CallCommon, ct *Co
 		rets = []Val{result}
 	}
 	if ct.Fresh && len(rets) > 0 {
-		for _, k := range fx.fresh {
-			fx.assume("(distinct " + rets[0].S + " " + k + ")")
-		}
-		fx.assume("(> " + rets[0].S + " " + fx.allocBase() + ")")
-		fx.fresh = append(fx.fresh, rets[0].S)
+		fx.adoptFresh(rets[0].S)
 	}
 	env2 := &evalEnv{fx: fx, heap: fx.cur.heap, oldHeap: pre, names: names, rets: rets, gh: fx.cur.gh, oldGh: preGh}
 	for _, e := range ct.Ensures {
